@@ -70,58 +70,9 @@ def run(repo: Repo, R: Report) -> None:
         R.check(ok, r_sib, NODES, f"{cls_name}.__init__", "if issues: raise InvalidNodeParameterError(invalid={names})", "unknown parameters found by the classifier are not rejected at node construction with the same names", init.lineno)
 
     # ------------------------------------------------------------------ D3
-    r_flow = R.rule("C02-D3-type-flow-carried", "the data-type check compares each node's input type with the output type of the last node that declared one (carried across context-only nodes), for every node with an input type, in the same direction as the run-time gate; incompatibilities become errors that validate_pipeline raises", 6)
-    vf = repo.func(VALIDATOR, "_validate_data_flow_compatibility")
-    loops = [n for n in walk_no_nested(vf) if isinstance(n, ast.For)]
-    if len(loops) != 1:
-        raise AnalysisError("_validate_data_flow_compatibility: loop not found")
-    lp = loops[0]
-    comp = next((c for c in calls_in(lp) if call_attr(c) == "_is_compatible"), None)
-    if comp is None:
-        raise AnalysisError("_validate_data_flow_compatibility: _is_compatible call not found")
-    prev_expr, next_expr = comp.args[0], comp.args[1]
-    prev_root = prev_expr.value.id if isinstance(prev_expr, ast.Attribute) and isinstance(prev_expr.value, ast.Name) else None
-    # loop-carried: a variable assigned in the body that is read earlier in the body (or before the assignment) on the next iteration
-    carried = set()
-    body_assigned = {t.id for n in ast.walk(lp) if isinstance(n, ast.Assign) for t in n.targets if isinstance(t, ast.Name)}
-    pre_loop = {t.id for n in walk_no_nested(vf) if isinstance(n, ast.Assign) and n.lineno < lp.lineno for t in n.targets if isinstance(t, ast.Name)}
-    carried = body_assigned & pre_loop
-    feeds = False
-    if prev_root:
-        roots = {prev_root}
-        for v in assigned_value(vf, prev_root):
-            roots |= {x.id for x in ast.walk(v) if isinstance(x, ast.Name)}
-        feeds = bool(roots & carried)
-    adjacency = any(isinstance(s, ast.Subscript) and isinstance(s.slice, ast.BinOp) for s in ast.walk(lp))
-    R.check(feeds and not adjacency, r_flow, VALIDATOR, "_validate_data_flow_compatibility", f"predecessor type comes from a loop-carried variable {sorted(carried)}", "the check compares adjacent nodes only: a type change separated by a context-only node is accepted and fails with TypeError at run time", lp.lineno)
-    # the carried variable is updated for every node that declares an output type
-    lv = lp.target.id if isinstance(lp.target, ast.Name) else None
-    ups = [n for n in ast.walk(lp) if isinstance(n, ast.Assign) and any(isinstance(t, ast.Name) and t.id in carried for t in n.targets) and dotted_name(n.value) == lv]
-    ok = bool(ups)
-    for u in ups:
-        tests = [a.test for a in ancestors(u) if isinstance(a, ast.If) and a is not lp]
-        for t in tests:
-            simple = (isinstance(t, ast.Compare) and len(t.ops) == 1 and isinstance(t.ops[0], ast.IsNot) and isinstance(t.comparators[0], ast.Constant) and t.comparators[0].value is None and ast.unparse(t.left) == f"{lv}.output_type") or ast.unparse(t) == f"{lv}.output_type"
-            ok = ok and simple
-    R.check(ok, r_flow, VALIDATOR, "_validate_data_flow_compatibility", "carried predecessor := node whenever node.output_type is not None", "the carried predecessor is not updated for every typed node (e.g. skipped for type-preserving nodes): leading nodes are never checked and an incompatible pipeline is accepted", lp.lineno)
-    # skip conditions
-    conts = [n for n in ast.walk(lp) if isinstance(n, ast.If) and any(isinstance(x, ast.Continue) for x in n.body)]
-    ok = True
-    for c in conts:
-        names = {ast.unparse(x) for x in ast.walk(c.test) if isinstance(x, (ast.Attribute, ast.Name)) and isinstance(getattr(x, "ctx", None), ast.Load) and not isinstance(getattr(x, "_parent", None), ast.Attribute)}
-        allowed = {prev_root or "", f"{lv}.input_type", f"{prev_root}.output_type"}
-        ok = ok and names <= allowed
-    R.check(ok, r_flow, VALIDATOR, "_validate_data_flow_compatibility", "nodes are skipped only when there is no typed predecessor or no input type", "typed nodes are skipped by an additional condition", lp.lineno)
-    R.check(ast.unparse(prev_expr).endswith(".output_type") and ast.unparse(next_expr) == f"{lv}.input_type", r_flow, VALIDATOR, "_validate_data_flow_compatibility", norm(comp), "compatibility is not tested as (predecessor output, this input)", comp.lineno)
-    ic = repo.func(VALIDATOR, "_is_compatible")
-    p0, p1 = ic.args.args[0].arg, ic.args.args[1].arg
-    iss = [c for c in ast.walk(ic) if isinstance(c, ast.Call) and call_attr(c) == "issubclass"]
-    ok = len(iss) == 1 and [dotted_name(a) for a in iss[0].args] == [p0, p1]
-    R.check(ok, r_flow, VALIDATOR, "_is_compatible", f"issubclass({p0}, {p1})", "inspection's compatibility rule is not the run-time gate's direction issubclass(output, input)", ic.lineno)
-    errs = [c for c in calls_in(lp) if call_attr(c) == "append" and "errors" in ast.unparse(c.func)]
-    vp = repo.func(VALIDATOR, "validate_pipeline")
-    ok = bool(errs) and any(call_attr(c) == "_validate_data_flow_compatibility" for c in calls_in(vp)) and any(isinstance(n, ast.If) and any(isinstance(x, ast.Raise) for x in n.body) for n in walk_no_nested(vp)) and "node.errors" in ast.unparse(vp).replace("n.errors", "node.errors")
-    R.check(ok, r_flow, VALIDATOR, "validate_pipeline", "flow errors are recorded on the node and raised by validate_pipeline", "a detected incompatibility does not make validation fail", vp.lineno)
+    _type_flow_rules(repo, R)
+    # ------------------------------------------------------------------ D4
+    _created_keys_written(repo, R)
 
     # ------------------------------------------------------------------ D5
     r_state = R.rule("C02-D5-context-state", "per node, after its own parameters were classified: every created key (incl. a probe's context_key) is recorded as produced by *this* node and un-deleted; suppressed keys of context processors become deleted; classification reads the live key_origin/deleted_keys", 7)
